@@ -89,6 +89,15 @@ let doc_wrap (fs : string list) : string =
       Printf.sprintf "strict=OK|it0=%s|t1=%s|it1=%s|t2=%s|rr=%s|t2p=%s"
         (doc_s d) (hx t1) (doc_s r1) (hx (text r2)) (reread t1) t2p)
 
+let doc_wrap_any (fs : string list) : string =
+  let s = str_of_hex (L.nth fs 0) in
+  let c = parse_cfg (L.nth fs 1) in
+  guarded (fun () ->
+    let (d, n) = get (Deb822Parse.from_str_relaxed s) in
+    let r1 = get (ws_doc c d) in
+    let r2 = get (ws_doc c r1) in
+    Printf.sprintf "nerr=%d|t1=%s|it1=%s|t2=%s" (int_of_nat n) (hx (text r1)) (doc_s r1) (hx (text r2)))
+
 (* the relation branch of format_field: the real function's values at the points the case needs
    (computed by the harness helper control-fmt-table when the case was generated) *)
 let rel_of_table (tab : string) : BinNums.coq_N list -> BinNums.coq_N list res =
@@ -128,4 +137,5 @@ let control_wrap (fs : string list) : string =
 
 let () = register "para-wrap" para_wrap
 let () = register "doc-wrap" doc_wrap
+let () = register "doc-wrap-any" doc_wrap_any
 let () = register "control-wrap" control_wrap
